@@ -9,6 +9,8 @@
    * A decoded message is (mmsi, for every such attribute: MAbsent = `hasattr` is false, MPresent v = `getattr`
      returned v, where v may be None).  The FIELDS loops also visit `mmsi` (always present, re-assigns the same value)
      and `last_updated` (no message class has such an attribute; the harness checks that by reflection).
+   * `ttl_in_seconds` and `stream_is_ordered` are public attributes: a history may assign a new TTL at any time
+     (`OpSetTtl`) and may switch an ordered tracker to unordered (`OpUnordered`); every method reads them afresh.
    * Time is an explicit argument `now` of every operation that reads the clock (`time.time()` is called by
      `AISTrack.last_updated`'s default factory and by `cleanup`).  Timestamps and the TTL are integers in one common
      unit (the harness uses quarter seconds, on which binary64 arithmetic is exact).
@@ -24,9 +26,12 @@
      `trkc_step_quiet`); C12 is stated over the first part, C13-C15 over the general one.  Callbacks that call back
      into the tracker (re-entrancy) are outside both.
 
-   The model follows the code AFTER the two repairs
+   The model follows the code AFTER the three repairs
      fix: cleanup() scans the tracks oldest first in unordered mode as well          (C13)
-     fix: n_latest_tracks() returns the last n tracks in ordered mode                 (C14) *)
+     fix: n_latest_tracks() returns the last n tracks in ordered mode                 (C14)
+     fix: keep oldest_timestamp a lower bound of the tracks when a subscriber callback raises   (C13)
+          (insert_or_update lowers the cache BEFORE insert_track; cleanup assigns it AFTER the pop loop; the bodies
+          before that repair are kept as `*_unrepaired` at the end of this file) *)
 From Coq Require Import List Bool ZArith.
 Require Import Prim.Exn Prim.IntDict.
 Import ListNotations.
@@ -135,6 +140,11 @@ Section Tracker.
     mkTracker (t_tracks st) (t_ttl st) (t_ordered st) o (t_broker st).
   Definition with_broker (st : trk_tracker) (b : trk_broker) : trk_tracker :=
     mkTracker (t_tracks st) (t_ttl st) (t_ordered st) (t_oldest st) b.
+  (* assignments to the public attributes `ttl_in_seconds` / `stream_is_ordered` *)
+  Definition with_ttl (st : trk_tracker) (ttl : option Z) : trk_tracker :=
+    mkTracker (t_tracks st) ttl (t_ordered st) (t_oldest st) (t_broker st).
+  Definition with_ordered (st : trk_tracker) (o : bool) : trk_tracker :=
+    mkTracker (t_tracks st) (t_ttl st) o (t_oldest st) (t_broker st).
 
   (* poplast: key, latest = dictionary.popitem(); dictionary[key] = latest; return latest *)
   Definition trk_poplast (d : idict trk_track) : option (trk_track * idict trk_track) :=
@@ -215,15 +225,17 @@ Section Tracker.
       | (st1, calls, None) => (trk_set_oldest_timestamp st1 (tr_lu track), calls, None)
       end
     else
-      let '(st1, calls) := trk_insert_track st mmsi track in
+      let st0 := trk_set_oldest_timestamp st (tr_lu track) in         (* before the subscribers are called *)
+      let '(st1, calls) := trk_insert_track st0 mmsi track in
       (trk_set_oldest_timestamp st1 (tr_lu track), calls, None).
 
   (* to_be_deleted = set(); .add(mmsi) *)
   Definition trk_set_add (x : Z) (s : list Z) : list Z := if existsb (Z.eqb x) s then s else s ++ [x].
 
   (* the scan of cleanup():
+       oldest = self.oldest_timestamp
        for track in tracks:
-           if (t - track.last_updated) < self.ttl_in_seconds: self.oldest_timestamp = track.last_updated; break
+           if (t - track.last_updated) < self.ttl_in_seconds: oldest = track.last_updated; break
            to_be_deleted.add(track.mmsi)                                                                        *)
   Fixpoint trk_cleanup_scan (t ttl : Z) (tracks : list trk_track) (oldest : option Z) (to_be_deleted : list Z)
     : option Z * list Z :=
@@ -244,7 +256,8 @@ Section Tracker.
       (st2, c1 ++ c2)
     end.
 
-  (* cleanup (after `fix:` C13: the scan runs oldest first in both modes) *)
+  (* cleanup (after `fix:` C13: the scan runs oldest first in both modes; `oldest` is a local variable during the
+     scan and `self.oldest_timestamp = oldest` is the last statement) *)
   Definition trk_cleanup (st : trk_tracker) (now : Z) : trk_tracker * list trk_call :=
     match t_ttl st with
     | None => (st, [])
@@ -259,7 +272,8 @@ Section Tracker.
             if t_ordered st then idict_values (t_tracks st)
             else trk_sorted (idict_values (t_tracks st)) in
           let '(oldest', to_be_deleted) := trk_cleanup_scan t ttl tracks (t_oldest st) [] in
-          trk_pop_all (with_oldest st oldest') to_be_deleted
+          let '(st1, calls) := trk_pop_all st to_be_deleted in
+          (with_oldest st1 oldest', calls)
       end
     end.
 
@@ -305,7 +319,15 @@ Section Tracker.
   | OpCleanup (now : Z)
   | OpPop (mmsi : Z)
   | OpAttach (ev : trk_event) (cb : Z)       (* register_callback *)
-  | OpDetach (ev : trk_event) (cb : Z).      (* remove_callback *)
+  | OpDetach (ev : trk_event) (cb : Z)       (* remove_callback *)
+  | OpInsertOrUpdate (now : Z) (decoded : trk_msg) (ts_epoch_ms : option Z)
+      (* tracker.insert_or_update(int(decoded.mmsi), msg_to_track(decoded, ts_epoch_ms)) -- the public method below update():
+         no ordering check, no cleanup().  In ordered mode the caller is responsible for non-decreasing timestamps on
+         this route (otherwise the unchanged code itself leaves the table unsorted); the theorems assume it (`op_ok`). *)
+  | OpSetTtl (ttl : option Z)                (* tracker.ttl_in_seconds = ttl   (a public attribute; cleanup() reads it afresh) *)
+  | OpUnordered.                             (* tracker.stream_is_ordered = False   (only this direction: a table that was kept
+                                                sorted is a legal unordered table; switching an unordered tracker to ordered
+                                                would assert an order nobody enforced and is outside the model) *)
 
   Record trk_result := mkResult {
     r_state : trk_tracker;
@@ -322,6 +344,11 @@ Section Tracker.
       let '(st1, calls, _) := trk_pop_track st mmsi in mkResult st1 calls None
     | OpAttach ev cb => mkResult (with_broker st (brk_attach (t_broker st) ev cb)) [] None
     | OpDetach ev cb => mkResult (with_broker st (brk_detach (t_broker st) ev cb)) [] None
+    | OpInsertOrUpdate now decoded ts =>
+      let '(st1, calls, e) := trk_insert_or_update st (m_mmsi decoded) (trk_msg_to_track nattrs decoded ts now) in
+      mkResult st1 calls e
+    | OpSetTtl ttl => mkResult (with_ttl st ttl) [] None
+    | OpUnordered => mkResult (with_ordered st false) [] None
     end.
 
   (* run a history; returns the final state and, per operation, its result *)
@@ -362,8 +389,8 @@ Arguments trk_call V : clear implicits.
      `try ... except KeyError: return None`: a KeyError raised by a DELETED callback is swallowed AFTER the track was
      deleted (pop_track returns None), any other exception escapes.  `insert_track` / `update_track` propagate after
      the table was changed and do not catch anything; `insert_or_update` then skips `__set_oldest_timestamp`, and
-     `update` skips `cleanup()`.  `cleanup` advances `oldest_timestamp` during the scan and then pops the expired
-     tracks one by one: an exception escaping from pop_track ends that loop.
+     `update` skips `cleanup()`.  `cleanup` pops the expired tracks one by one: an exception escaping from pop_track
+     ends that loop, and `oldest_timestamp` (assigned after the loop) keeps its old value.
    * `to_be_deleted` is a Python set; `for mmsi in to_be_deleted` visits it in the set's iteration order, which is
      `e_iter env` of the list in insertion order (CPython: a function of the insertion sequence; the theorems only
      assume that it enumerates the same elements).
@@ -448,11 +475,15 @@ Section TrackerCb.
         mkCResult st1 [(UPDATED, updated)] ds None (outcome_exn o)
     end.
 
-  (* insert_or_update: `self.__set_oldest_timestamp(track.last_updated)` is the statement AFTER the if/else, so it is
-     not reached when update_track / insert_track raise *)
+  (* insert_or_update:
+       if mmsi in self._tracks: self.update_track(mmsi, track)
+       else: self.__set_oldest_timestamp(track.last_updated); self.insert_track(mmsi, track)
+       self.__set_oldest_timestamp(track.last_updated)
+     The last statement is not reached when update_track / insert_track raise; the new track is covered by the cache
+     all the same (an updated track is never older than it was). *)
   Definition trkc_insert_or_update (env : trk_env) (st : tracker) (mmsi : Z) (tr : track) : trkc_result :=
     let r := if idict_mem (t_tracks st) mmsi then trkc_update_track_m env st mmsi tr
-             else trkc_insert_track env st mmsi tr in
+             else trkc_insert_track env (trk_set_oldest_timestamp st (tr_lu tr)) mmsi tr in
     match rc_exn r with
     | Some _ => r
     | None => mkCResult (trk_set_oldest_timestamp (rc_state r) (tr_lu tr)) (rc_calls r) (rc_deliv r) None None
@@ -487,7 +518,11 @@ Section TrackerCb.
             if t_ordered st then idict_values (t_tracks st)
             else trk_sorted (idict_values (t_tracks st)) in
           let '(oldest', to_be_deleted) := trk_cleanup_scan t ttl tracks (t_oldest st) [] in
-          trkc_pop_all env (with_oldest st oldest') (e_iter env to_be_deleted)
+          let r := trkc_pop_all env st (e_iter env to_be_deleted) in
+          match rc_exn r with
+          | Some _ => r                                  (* `self.oldest_timestamp = oldest` is not reached *)
+          | None => mkCResult (with_oldest (rc_state r) oldest') (rc_calls r) (rc_deliv r) None None
+          end
       end
     end.
 
@@ -515,6 +550,10 @@ Section TrackerCb.
     | OpPop mmsi => trkc_pop_track env st mmsi
     | OpAttach ev cb => mkCResult (with_broker st (brk_attach (t_broker st) ev cb)) [] [] None None
     | OpDetach ev cb => mkCResult (with_broker st (brk_detach (t_broker st) ev cb)) [] [] None None
+    | OpInsertOrUpdate now decoded ts =>
+      trkc_insert_or_update env st (m_mmsi decoded) (trk_msg_to_track nattrs decoded ts now)
+    | OpSetTtl ttl => mkCResult (with_ttl st ttl) [] [] None None
+    | OpUnordered => mkCResult (with_ordered st false) [] [] None None
     end.
 
   (* a history: every operation with the behaviour of the callbacks (and of the set iteration) during it *)
@@ -524,6 +563,69 @@ Section TrackerCb.
     | (env, op) :: r =>
       let res := trkc_step nattrs env st op in
       let '(st', rs) := trkc_run nattrs (rc_state res) r in
+      (st', res :: rs)
+    end.
+
+  (* ---- the bodies BEFORE `fix: keep oldest_timestamp a lower bound of the tracks when a subscriber callback raises`
+     (only used by the refutation witnesses C13_unrepaired_refuted_... of Props/C13.v) ---- *)
+  Definition trkc_insert_or_update_unrepaired (env : trk_env) (st : tracker) (mmsi : Z) (tr : track) : trkc_result :=
+    let r := if idict_mem (t_tracks st) mmsi then trkc_update_track_m env st mmsi tr
+             else trkc_insert_track env st mmsi tr in
+    match rc_exn r with
+    | Some _ => r
+    | None => mkCResult (trk_set_oldest_timestamp (rc_state r) (tr_lu tr)) (rc_calls r) (rc_deliv r) None None
+    end.
+
+  Definition trkc_cleanup_unrepaired (env : trk_env) (st : tracker) (now : Z) : trkc_result :=
+    match t_ttl st with
+    | None => mkCResult st [] [] None None
+    | Some ttl =>
+      match t_oldest st with
+      | None => mkCResult st [] [] None None
+      | Some oldest =>
+        let t := now in
+        if (t - ttl) <? oldest then mkCResult st [] [] None None
+        else
+          let tracks :=
+            if t_ordered st then idict_values (t_tracks st)
+            else trk_sorted (idict_values (t_tracks st)) in
+          (* the scan assigned self.oldest_timestamp itself *)
+          let '(oldest', to_be_deleted) := trk_cleanup_scan t ttl tracks (t_oldest st) [] in
+          trkc_pop_all env (with_oldest st oldest') (e_iter env to_be_deleted)
+      end
+    end.
+
+  Definition trkc_update_unrepaired (nattrs : nat) (env : trk_env) (st : tracker) (now : Z) (decoded : trk_msg V)
+             (ts_epoch_ms : option Z) : trkc_result :=
+    let mmsi := m_mmsi decoded in
+    let tr := trk_msg_to_track nattrs decoded ts_epoch_ms now in
+    match trk_ensure_timestamp_constraints st (tr_lu tr) with
+    | (st1, Some e) => mkCResult st1 [] [] None (Some e)
+    | (st1, None) =>
+      let r2 := trkc_insert_or_update_unrepaired env st1 mmsi tr in
+      match rc_exn r2 with
+      | Some _ => r2
+      | None =>
+        let r3 := trkc_cleanup_unrepaired env (rc_state r2) now in
+        mkCResult (rc_state r3) (rc_calls r2 ++ rc_calls r3) (rc_deliv r2 ++ rc_deliv r3) None (rc_exn r3)
+      end
+    end.
+
+  Definition trkc_step_unrepaired (nattrs : nat) (env : trk_env) (st : tracker) (op : trk_op V) : trkc_result :=
+    match op with
+    | OpUpdate now decoded ts => trkc_update_unrepaired nattrs env st now decoded ts
+    | OpCleanup now => trkc_cleanup_unrepaired env st now
+    | OpInsertOrUpdate now decoded ts =>
+      trkc_insert_or_update_unrepaired env st (m_mmsi decoded) (trk_msg_to_track nattrs decoded ts now)
+    | _ => trkc_step nattrs env st op
+    end.
+
+  Fixpoint trkc_run_unrepaired (nattrs : nat) (st : tracker) (h : list (trk_env * trk_op V)) : tracker * list trkc_result :=
+    match h with
+    | [] => (st, [])
+    | (env, op) :: r =>
+      let res := trkc_step_unrepaired nattrs env st op in
+      let '(st', rs) := trkc_run_unrepaired nattrs (rc_state res) r in
       (st', res :: rs)
     end.
 
